@@ -10,7 +10,7 @@ RGB_DTYPE = np.dtype([("R", "u1"), ("G", "u1"), ("B", "u1")])
 
 
 def write_nifti(path, raw, affine, slope=None, inter=None,
-                big_endian=False):
+                big_endian=False, xyz_units=None):
     """raw: array in nibabel (Fortran, X,Y,Z[,T]) index order with the stored
     dtype (or RGB_DTYPE).  The header scaling fields are patched in place so
     that the stored values stay exactly `raw`.  big_endian writes a
@@ -27,6 +27,10 @@ def write_nifti(path, raw, affine, slope=None, inter=None,
                               dtype=raw.dtype)
     img.header.set_data_dtype(raw.dtype)
     img.header.set_slope_inter(None, None)
+    if xyz_units:
+        # the declared spatial unit of the header ("mm", "micron", "meter";
+        # nibabel writes "unknown" by default)
+        img.header.set_xyzt_units(xyz=xyz_units)
     plain = path[:-3] if path.endswith(".gz") else path
     nib.save(img, plain)
     if slope is not None:
